@@ -1398,6 +1398,25 @@ impl DistributedTxCoordinator {
         shard: ShardId,
         vote: PrepareVote,
     ) -> std::result::Result<Option<TxPhase>, VoteRecordError> {
+        // Reject votes that will not be recorded BEFORE logging them: a duplicate or late
+        // vote written to the WAL would replace the accepted vote of that shard on recovery.
+        {
+            let pending = self.pending.read();
+            let tx = pending
+                .get(&tx_id)
+                .ok_or(VoteRecordError::TxNotFound(tx_id))?;
+            if tx.phase != TxPhase::Preparing {
+                return Err(VoteRecordError::WrongPhase {
+                    tx_id,
+                    expected: TxPhase::Preparing,
+                    actual: tx.phase,
+                });
+            }
+            if tx.votes.contains_key(&shard) {
+                return Err(VoteRecordError::DuplicateVote { tx_id, shard });
+            }
+        }
+
         // Log vote to WAL BEFORE recording in memory to ensure durability
         let vote_kind = match &vote {
             PrepareVote::Yes { lock_handle, .. } => crate::tx_wal::PrepareVoteKind::Yes {
